@@ -45,12 +45,15 @@ type scenario struct {
 	Steps  []step
 	EH     []handler
 	Entry  vkit.Entry
+	// how the error answer is rendered: verbose error bodies are negotiated with the client's Accept header
+	Verbose bool
+	Accept  string
 }
 
 func (s scenario) String() string {
 	var sb strings.Builder
 
-	fmt.Fprintf(&sb, "%s via %s: ", s.Source, s.Entry)
+	fmt.Fprintf(&sb, "%s via %s (verbose=%v accept=%q): ", s.Source, s.Entry, s.Verbose, s.Accept)
 
 	for _, st := range s.Steps {
 		fmt.Fprintf(&sb, "[%s %s%s", st.Kind[:5], st.Real, st.Outcome)
@@ -98,6 +101,10 @@ func genScenario(t *rapid.T) scenario {
 		Source: rapid.SampledFrom([]string{"rule", "rule", "rule", "default", "none"}).Draw(t, "source"),
 		Entry:  rapid.SampledFrom(vkit.AllEntries).Draw(t, "entry"),
 	}
+
+	s.Verbose = rapid.Bool().Draw(t, "verboseErrors")
+	s.Accept = rapid.SampledFrom([]string{"", "", "*/*", "application/json", "text/html;q=0.5, application/xml", "image/png", "application/pdf;q=0.9, image/*", "application/",
+		"garbage"}).Draw(t, "accept")
 
 	na := rapid.IntRange(1, 3).Draw(t, "nAuthn")
 	for i := 0; i < na; i++ {
@@ -182,6 +189,8 @@ func condExpr(c string) string {
 // build assembles configuration and rule for a scenario.
 func build(s scenario) (*vkit.World, error) {
 	conf := vkit.DefaultConf()
+	conf.Serve.Decision.Respond.Verbose = s.Verbose
+	conf.Serve.Proxy.Respond.Verbose = s.Verbose
 	protos := conf.Prototypes
 
 	var (
@@ -399,6 +408,9 @@ func TestPositiveAnswerOnlyAfterCompletePipeline(t *testing.T) {
 		}
 
 		lr := vkit.LogicalRequest{Method: "GET", Scheme: "http", Host: "svc.example.com", RawPath: path}
+		if s.Accept != "" {
+			lr.Headers = append(lr.Headers, vkit.HeaderKV{Name: "Accept", Value: s.Accept})
+		}
 
 		resp, err := w.Send(s.Entry, lr, upstream)
 		if err != nil {
@@ -410,6 +422,7 @@ func TestPositiveAnswerOnlyAfterCompletePipeline(t *testing.T) {
 		vkit.S.Eval()
 		vkit.S.Label("entry=" + string(s.Entry))
 		vkit.S.Label("source=" + s.Source)
+		vkit.S.LabelIf(s.Verbose && s.Accept != "", "verbose_errors_with_accept_header")
 		vkit.S.Label(fmt.Sprintf("model_allows=%v", nec))
 		vkit.S.LabelIf(nec && certain && resp.Positive, "converse:model_allows_and_allowed")
 		vkit.S.LabelIf(nec && certain && !resp.Positive && !(s.Entry == vkit.EntryProxy && s.Source == "default"), "converse:model_allows_but_denied")
